@@ -38,13 +38,17 @@ Proof.
 Qed.
 
 Lemma row_disciplined_read r :
-  row_disciplined var_prots r = true -> (a_kind r = ARead \/ a_kind r = AMapRead \/ a_kind r = ARefUse) ->
+  row_disciplined var_prots r = true -> (a_kind r = ARead \/ a_kind r = AMapRead \/ a_kind r = AMapRange \/ a_kind r = ARefUse) ->
   read_ok_s (prots_of var_prots (a_var r)) (ctx_of_tokens (a_ctx r)) = true.
 Proof.
-  unfold row_disciplined. intros H [E|[E|E]]; rewrite E in H; apply Bool.andb_true_iff in H; tauto.
+  unfold row_disciplined. intros H [E|[E|[E|E]]]; rewrite E in H; apply Bool.andb_true_iff in H; tauto.
 Qed.
 
 (* every reference-typed field of the process-global default TransformerConfig is deep-copied by DeepCopy, and the
    DeepCopy methods of the field types allocate and copy *)
 Lemma deepcopy_disciplined : deepcopy_ok gen_tc_fields gen_tc_copy_types = true.
+Proof. vm_compute. reflexivity. Qed.
+
+(* no function ranges over a package-level map of kyaml/openapi *)
+Lemma globals_no_range_over_schema_maps : range_rows "kyaml/openapi." gen_accesses = [].
 Proof. vm_compute. reflexivity. Qed.
